@@ -21,7 +21,14 @@ META = {
     'path: fint_1..4 satisfy the differential identities that define them '
     'against the same antiderivative F (K4), inclusion-exclusion and '
     'translation of panels (R-fourterm, R-translate, R-partition), and the '
-    'switch to it entails a straight piece (R-straight).',
+    'switch to it entails a straight piece (R-straight).  Also: the '
+    'internal assertions of both splitters are entailed for laminar '
+    'mesh intervals (R-assert), element intervals come from the corner '
+    'vertices (R-geometry), the 2-D scheme plumbing the splitter relies on '
+    '(affine maps, mirrors incl. cached slots, tensor layout, Duffy '
+    'Jacobian/tiling) is certified as under C15, curves are unit speed '
+    '(K9); thorough tier: the branch ladder is deterministic on each of '
+    '44 interval configuration classes (R-order-types).',
     'checker_cmd': 'python3-vt -m stbem_static C01 --tier <tier>',
     'trusted_base': [
         'CPython ast', 'sympy (differentiation, cancellation, limits)',
